@@ -1,15 +1,18 @@
 ----------------------------- MODULE DataUriAsIs -----------------------------
-(* C18 design model "as is": transcription of minify.DataURI of the pinned tree together with
-   the two functions of the parse module it relies on (parse.DataURI, parse.DecodeURL) and the
-   escaping table parse.DataURIEncodingTable, as functions on byte sequences.
+(* C18 design model "as is": transcription of minify.DataURI of the current tree (after the fix commits
+   28726ca K2, e6331d3 K3, 8f5eddf K5, 29221d0 K1) together with the two functions of the parse module it
+   relies on (parse.DataURI, parse.DecodeURL) and the escaping table parse.DataURIEncodingTable, as
+   functions on byte sequences.
 
    Uses:
    * DataUriGen / DataUriHdrGen model-check  AsIsOKOutsideKnown:  wherever this transcription
-     violates the relation DataUriOK, the input is one of the narrow constructs KnownUri of the
-     pinned findings K1..K5a - i.e. the generator exclusions cover every defect of the design
-     within the bound, and outside them the design is correct;
+     violates the relation DataUriOK, the input is the one remaining narrow construct KnownUri (pinned
+     finding K4, base64 token that is not the final ";base64" marker: needs a fix in the parse module);
    * C18Trace compares the transcription with every recorded call that had no minifier
-     registered (DRIFT information: the model no longer describes the code; never a verdict). *)
+     registered (DRIFT information: the model no longer describes the code; never a verdict);
+   * OldUri is the transcription of the code BEFORE the fixes, kept as a wrong-design guard: the
+     ASSUMEs at the end demand that the relation still rejects it on the witnesses of the fixed
+     findings K1, K2, K3, K5 (if the relation ever stopped seeing those defects, TLC stops here). *)
 EXTENDS DataUri
 
 \* parse.DataURIEncodingTable: what EncodeURL escapes (control, blank, " # % & < > [ \ ] ^ ` { | } DEL, non-ASCII)
@@ -54,7 +57,65 @@ AsIsParse(u) ==
            mt |-> IF Len(e.mt) = 0 \/ e.mt[1] = 59 THEN TextPlain ELSE e.mt,                      \* P4 default type
            b64 |-> e.b64, raw |-> SubSeq(d, e.comma + 1, Len(d))]
 
+\* common.go validDataURIPayload(origData): base64 header, or only bytes the table leaves alone / "&" / %XX
+ValidPayloadAsIs(u) ==
+  LET comma == SelectInSeq(u, LAMBDA c : c = 44) IN
+  IF comma = 0 THEN FALSE
+  ELSE LET hd == Trim(SubSeq(u, 1, comma - 1)) IN
+       IF Len(hd) >= 7 /\ SubSeq(hd, Len(hd) - 6, Len(hd)) = <<59>> \o Base64Tok THEN TRUE
+       ELSE \A j \in (comma + 1)..Len(u) :
+              IF u[j] = 37 THEN j + 2 <= Len(u) /\ IsHex(u[j+1]) /\ IsHex(u[j+2])
+              ELSE u[j] = 38 \/ ~TableEscape(u[j])
+
+\* the two rewrites of the input that precede parse.DataURI
+PreParse(u) ==
+  LET \* K2 fix: "data:" [blanks] ";..."  ->  "data:text/plain;..."
+      r0 == IF Len(u) > 5 /\ SubSeq(u, 1, 5) = Data5
+            THEN SelectInSeq(SubSeq(u, 6, Len(u)), LAMBDA c : ~IsWs(c)) ELSE 0      \* first non-blank after "data:"
+      i0 == IF r0 = 0 THEN 0 ELSE r0 + 5
+      u1 == IF i0 > 0 /\ u[i0] = 59 THEN Data5 \o TextPlain \o SubSeq(u, i0, Len(u)) ELSE u
+      \* K1 fix: "+" in percent-form data  ->  "%2B"
+      comma == SelectInSeq(u1, LAMBDA c : c = 44)
+      hd == IF comma = 0 THEN <<>> ELSE Trim(SubSeq(u1, 1, comma - 1))
+      isB64 == Len(hd) >= 7 /\ SubSeq(hd, Len(hd) - 6, Len(hd)) = <<59>> \o Base64Tok
+  IN IF comma = 0 \/ isB64 THEN u1
+     ELSE SubSeq(u1, 1, comma - 1) \o
+          FoldLeft(LAMBDA a, c : IF c = 43 THEN a \o <<37, 50, 66>> ELSE Append(a, c), <<>>, SubSeq(u1, comma, Len(u1)))
+
 AsIsUri(in, hasSub, Sub(_)) ==
+  LET p == AsIsParse(PreParse(in)) IN
+  IF ~p.ok THEN in                                                        \* U1 not a data URI
+  ELSE IF p.b64 /\ ~GoB64OK(p.raw) THEN in                                \* U2 base64 error
+  ELSE
+  LET data0 == IF p.b64 THEN B64Decode(GoB64Text(p.raw)) ELSE AsIsDecodeURL(p.raw)
+      data == IF hasSub THEN Sub(data0) ELSE data0
+      b64c == 7 + B64Len(Len(data))
+      pctc == Len(data) + 2 * Count(data, TableEscape)
+  IN IF Len(in) < b64c /\ Len(in) < pctc THEN in                          \* U3 original shorter than both
+     ELSE
+     LET useB64 == b64c < pctc
+         mt1 == IF useB64 THEN p.mt \o <<59>> \o Base64Tok ELSE p.mt      \* U4 / U5
+         enc == IF useB64 THEN B64Encode(data) ELSE PctEncodeWith(data, TableEscape)
+         mt2 == IF Len(mt1) >= 10 /\ LowerSeq(SubSeq(mt1, 1, 10)) = TextPlain /\ (Len(mt1) = 10 \/ mt1[11] = 59)
+                THEN SubSeq(mt1, 11, Len(mt1)) ELSE mt1                   \* U6 text/plain stripped as a whole type name
+         hit == SelectInSeq(Idx(mt2), LAMBDA i :
+                   /\ i + 16 <= Len(mt2) /\ mt2[i] = 59
+                   /\ LowerSeq(SubSeq(mt2, i + 1, i + 16)) = CharsetAscii
+                   /\ (i + 16 = Len(mt2) \/ mt2[i + 17] = 59))
+         mt3 == IF hit = 0 THEN mt2 ELSE SubSeq(mt2, 1, hit - 1) \o SubSeq(mt2, hit + 17, Len(mt2))   \* U7
+         res == Data5 \o mt3 \o <<44>> \o enc
+     IN IF Len(in) < Len(res) /\ ValidPayloadAsIs(in) THEN in              \* U8 never grow a validly encoded input
+        ELSE res
+AsIsNone(in) == AsIsUri(in, FALSE, LAMBDA x : x)       \* no minifier registered
+\* what a minifier registered for the payload type is handed by this design (<<>>: it is not reached)
+AsIsCalls(in, Sub(_)) ==
+  LET p == AsIsParse(PreParse(in)) IN
+  IF ~p.ok \/ (p.b64 /\ ~GoB64OK(p.raw)) THEN <<>>
+  ELSE LET data0 == IF p.b64 THEN B64Decode(GoB64Text(p.raw)) ELSE AsIsDecodeURL(p.raw)
+       IN << [in |-> data0, out |-> Sub(data0), err |-> FALSE] >>
+
+\* ---- wrong-design guard: the helper BEFORE the fixes (no pre-parse rewrites, prefix-only text/plain test, no final length test)
+OldUri(in, hasSub, Sub(_)) ==
   LET p == AsIsParse(in) IN
   IF ~p.ok THEN in                                                        \* U1 not a data URI
   ELSE IF p.b64 /\ ~GoB64OK(p.raw) THEN in                                \* U2 base64 error
@@ -77,26 +138,24 @@ AsIsUri(in, hasSub, Sub(_)) ==
                    /\ (i + 16 = Len(mt2) \/ mt2[i + 17] = 59))
          mt3 == IF hit = 0 THEN mt2 ELSE SubSeq(mt2, 1, hit - 1) \o SubSeq(mt2, hit + 17, Len(mt2))   \* U7
      IN Data5 \o mt3 \o <<44>> \o enc
-AsIsNone(in) == AsIsUri(in, FALSE, LAMBDA x : x)       \* no minifier registered
-\* what a minifier registered for the payload type is handed by this design (<<>>: it is not reached)
-AsIsCalls(in, Sub(_)) ==
-  LET p == AsIsParse(in) IN
-  IF ~p.ok \/ (p.b64 /\ ~GoB64OK(p.raw)) THEN <<>>
-  ELSE LET data0 == IF p.b64 THEN B64Decode(GoB64Text(p.raw)) ELSE AsIsDecodeURL(p.raw)
-       IN << [in |-> data0, out |-> Sub(data0), err |-> FALSE] >>
+OldNone(in) == OldUri(in, FALSE, LAMBDA x : x)
 
-\* ---- the input constructs of the pinned findings K1 .. K5a (same predicates as the generator's)
+\* ---- the input construct of the remaining pinned finding K4 (same predicate as the generator's)
 KnownUri(u) ==
   LET p == Parse(u) IN
   /\ p.ok
   /\ LET segs == Split(p.mt, 59)
          tsegs == [i \in 1..Len(segs) |-> Trim(segs[i])]
-         ty == LowerSeq(tsegs[1])
          pieces(s) == Split(s, 61)
-     IN \/ (~p.b64 /\ \E i \in 1..Len(p.raw) : p.raw[i] = 43)                                        \* K1 literal +
-        \/ (~p.b64 /\ \E i \in 1..Len(p.raw) : p.raw[i] = 38)                                        \* K5a literal &
-        \/ (tsegs[1] = <<>> /\ \E i \in 2..Len(tsegs) :
-                tsegs[i] # <<>> /\ SelectSeq(LowerSeq(tsegs[i]), LAMBDA c : c # 32) # CharsetAscii)  \* K2
-        \/ (Len(ty) > 10 /\ SubSeq(ty, 1, 10) = TextPlain)                                           \* K3
-        \/ (\E i \in 1..Len(tsegs) : \E k \in 1..Len(pieces(tsegs[i])) : Trim(pieces(tsegs[i])[k]) = Base64Tok)  \* K4
+     IN \E i \in 1..Len(tsegs) : \E k \in 1..Len(pieces(tsegs[i])) : Trim(pieces(tsegs[i])[k]) = Base64Tok     \* K4
+
+\* ---- the old design is still rejected on the witnesses of the fixed findings
+W_K1 == <<100,97,116,97,58,116,101,120,116,47,112,108,97,105,110,44,97,43,98>>              \* data:text/plain,a+b
+W_K2 == <<100,97,116,97,58,59,99,104,97,114,115,101,116,61,117,116,102,45,56,44,120>>        \* data:;charset=utf-8,x
+W_K3 == <<100,97,116,97,58,116,101,120,116,47,112,108,97,105,110,120,44,120>>                \* data:text/plainx,x
+W_K5 == <<100,97,116,97,58,44,97,38,98>>                                                     \* data:,a&b
+ASSUME /\ ~DataUriOK(W_K1, OldNone(W_K1), {}, <<>>) /\ DataUriOK(W_K1, AsIsNone(W_K1), {}, <<>>)
+       /\ ~DataUriOK(W_K2, OldNone(W_K2), {}, <<>>) /\ DataUriOK(W_K2, AsIsNone(W_K2), {}, <<>>)
+       /\ ~DataUriOK(W_K3, OldNone(W_K3), {}, <<>>) /\ DataUriOK(W_K3, AsIsNone(W_K3), {}, <<>>)
+       /\ ~DataUriOK(W_K5, OldNone(W_K5), {}, <<>>) /\ DataUriOK(W_K5, AsIsNone(W_K5), {}, <<>>)
 =============================================================================
